@@ -1,4 +1,8 @@
 (** Judge for C14: distance matrices and length-threshold clusters are exact.
+    Every case may carry (pre (step ...)) (seed n): steps applied to the tree(s) before the call
+    (reinit, matrix, matrixnone, swap, renamehi, renamelo, reroot, rotate; nothing re-indexed
+    afterwards); the observation then carries (used T') (audit (...)), the dump of the tree as
+    it was when the call was made, and the model and the oracle are run on that tree.
     cases:
       ((op matrix) (metric brlen|boot|none) (tree T))
       ((op avg)    (metric m) (trees (T ...)))
@@ -78,16 +82,25 @@ Definition matrix_oracle (m : metric) (t : utree) (names : list string) (g : lis
          else None
        end.
 
+(** the tree the call was made on: the case's tree after the "pre" steps of the case (earlier
+    calls, renamings, re-rooting, rotations; nothing re-indexed), as dumped by the worker just
+    before the call *)
+Definition used_tree (t0 : utree) (o : sexp) : utree :=
+  match get_tree "used" o with Some u => u | None => t0 end.
+Definition used_audit (o : sexp) : option string :=
+  match get "used" o with Some _ => audit_ok o | None => None end.
+
 Definition judge_matrix (c o : sexp) : verdict :=
   match get_tree "tree" c, (s <- get_string "metric" c ;; dec_metric s) with
-  | Some t, Some m =>
+  | Some t0, Some m =>
+    let t := used_tree t0 o in
     match get_string "panic" o with
     | Some p => if in_dom t then VOracle ("crash: " ++ p) else VCorr ("crash: " ++ p)
     | None =>
       match get_strings "names" o, (x <- get "matrix" o ;; dec_matrix x) with
       | Some names, Some g =>
         if negb (model_dom t) then VBad "case outside the model's domain (duplicate tip names)" else
-        match (if in_dom t then matrix_oracle m t names g else None) with
+        match (if in_dom t then first_some [used_audit o; matrix_oracle m t names g] else None) with
         | Some msg => VOracle msg
         | None =>
           let '(mn, mm) := to_matrix m t in
@@ -127,7 +140,8 @@ Definition avg_oracle (m : metric) (ts : list utree) (names : list string) (g : 
 
 Definition judge_avg (c o : sexp) : verdict :=
   match (x <- get "trees" c ;; dec_list dec_utree x), (s <- get_string "metric" c ;; dec_metric s) with
-  | Some ts, Some m =>
+  | Some ts0, Some m =>
+    let ts := match (x <- get "used" o ;; dec_list dec_utree x) with Some us => us | None => ts0 end in
     let dom := forallb in_dom ts in
     let same := match ts with
                 | [] => true
@@ -153,7 +167,7 @@ Definition judge_avg (c o : sexp) : verdict :=
           else
           match get_strings "names" o, (x <- get "matrix" o ;; dec_matrix x) with
           | Some names, Some g =>
-            match (if dom && same then avg_oracle m ts names g else None) with
+            match (if dom && same then first_some [used_audit o; avg_oracle m ts names g] else None) with
             | Some msg => VOracle msg
             | None =>
               if negb (list_eqb String.eqb mn names) then VCorr ("model names: " ++ concat_with "," mn)
@@ -175,7 +189,8 @@ Definition show_groups (l : list (list string)) : string :=
 
 Definition judge_cut (c o : sexp) : verdict :=
   match get_tree "tree" c, get_Q "maxlen" c with
-  | Some t, Some maxlen =>
+  | Some t0, Some maxlen =>
+    let t := used_tree t0 o in
     match get_string "panic" o with
     | Some p => if in_dom t then VOracle ("crash: " ++ p) else VCorr ("crash: " ++ p)
     | None =>
@@ -186,7 +201,9 @@ Definition judge_cut (c o : sexp) : verdict :=
           (if in_dom t then VOracle ("cut refused: " ++ gerr) else VCorr ("implementation refuses: " ++ gerr))
         else
         let want := cut_groups maxlen t in
-        if in_dom t && negb (groups_eqb bags want)
+        if in_dom t && (match used_audit o with Some _ => true | None => false end)
+        then VOracle "structural audit of the tree the cut was called on"
+        else if in_dom t && negb (groups_eqb bags want)
         then VOracle ("the bags are not the groups of tips joined by branches shorter than the threshold; expected "
                       ++ show_groups want)
         else if in_dom t && negb (bags_are_classes maxlen t bags)
